@@ -45,6 +45,9 @@ DIMS = {
     "seqlen": [1, 2, 3],
     "nglyphs": [2, 1, 3],
     "where": ["other", "same", "both"],
+    # codepoints in the order of the sources, or the first source (the donor's glyph) carrying the highest one: by name and by
+    # codepoint it then sorts after the glyphs that reuse its shapes
+    "cp_order": ["asc", "desc"],
 }
 
 PL = {
@@ -101,6 +104,8 @@ def relevant(dev):
     if dev.get("grad_twice") and dev.get("stack") == "one" and dev.get("nglyphs") == 1:
         return False
     if dev.get("grp") == "emptyglyph" and dev.get("nglyphs") == 1:
+        return False
+    if dev.get("cp_order", "asc") != "asc" and dev.get("nglyphs") == 1:
         return False
     return True
 
@@ -300,7 +305,7 @@ def mk(a):
     where = a.get("where", "other")
     if where in ("same", "both"):
         a_nodes = a_nodes + [Shape(copy_d_A, copy_paint_A, opacity=copy_op, label="copy-in-A")]
-    A = Glyph((0xE000,), vb, a_nodes)
+    A = Glyph((0xE000 if a.get("cp_order", "asc") == "asc" else 0xE010,), vb, a_nodes)
 
     tri = Shape(PB(OUT["tri"], aff.tr(40, 50)), tri_paint, label="tri")
     ov = Shape(PB(OUT["oval"], aff.tr(30, 40)), rad, label="oval-rad")
